@@ -96,7 +96,22 @@ class NestFork(nn.Module):
         return self.bn(self.inner(x))
 
 
+class InplBlk(nn.Module):
+    """user block whose activation is a statement-form in-place method call: the call's own result is not used"""
+    def __init__(self, cin, cout):
+        super().__init__()
+        self.c1 = nn.Conv2d(cin, cout, 3, padding=1)
+        self.c2 = nn.Conv2d(cout, cout, 1)
+
+    def forward(self, x):
+        h = self.c1(x)
+        h.relu_()
+        return self.c2(h)
+
+
 def make_branch(kind, cin, cout):
+    if kind == 'inpl':
+        return InplBlk(cin, cout)
     if kind == 'frkl':
         return Fork(cin, cout, True)
     if kind == 'frkf':
